@@ -3,7 +3,7 @@ import subprocess, json, random, re
 import vlib, memfs_gen
 from concurrent.futures import ThreadPoolExecutor
 
-OPS = ['mkfile', 'mkfile_m', 'mkdir_p', 'mkdir_m', 'write_all', 'append_all', 'read_all', 'read_lines', 'read', 'remove', 'remove_all', 'symlink', 'readlink', 'readlink_abs',
+OPS = ['mkfile', 'mkfile_m', 'mkdir_p', 'mkdir_m', 'write_all', 'append_all', 'write_lines', 'append_lines', 'append_line', 'read_all', 'read_lines', 'read', 'remove', 'remove_all', 'symlink', 'readlink', 'readlink_abs',
        'set_cwd', 'cwd', 'abs', 'exists', 'is_file', 'is_dir', 'is_symlink', 'is_symlink_dir', 'is_symlink_file', 'is_exec', 'is_readonly', 'mode', 'paths', 'dirs', 'files',
        'all_paths', 'all_dirs', 'all_files', 'chmod', 'copy', 'move_p']
 
@@ -53,7 +53,8 @@ def grid(tier, rng):
         calls = []
         for p in P:
             calls += [f'{o} {hx(p)}' for o in one]
-            calls += [f'mkfile_m {hx(p)} 640', f'mkdir_m {hx(p)} 750', f'chmod {hx(p)} 600', f'chmod {hx(p)} 755', f'write_all {hx(p)} {hx("new")}', f'append_all {hx(p)} {hx("+")}']
+            calls += [f'mkfile_m {hx(p)} 640', f'mkdir_m {hx(p)} 750', f'chmod {hx(p)} 600', f'chmod {hx(p)} 755', f'write_all {hx(p)} {hx("new")}', f'append_all {hx(p)} {hx("+")}',
+                      f'write_lines {hx(p)} l:{hx("a")[1:]},,{hx("b")[1:]}', f'append_lines {hx(p)} l:{hx("a")[1:]},,{hx("b")[1:]}', f'append_line {hx(p)} {hx("z")}']
             for q in ['/a', '/zz', '/a/b', '/b/n', 'n', '/l', '/g', '/zz/y/w']:
                 calls += [f'copy {hx(p)} {hx(q)}', f'move_p {hx(p)} {hx(q)}', f'symlink {hx(p)} {hx(q)}']
         if tier == 'quick':
@@ -320,10 +321,10 @@ def run(tier, seed, replay):
     if not okh:
         V.violation('build', dict(kind='build', log=logh), no_input=True)
         return V.finish('proof', dict(obligations=1, discharged=0, checker_cmd='cargo build', trusted_base=[], explanation='build failed'), assumptions)
-    okl, logl, dtl = vlib.build_lean(['driver', 'Rivia.Props.C02'])
+    okl, logl, dtl = vlib.build_lean(['driver', 'Rivia.Props.C02', 'Rivia.Props.C02M'])
     proof_broken = []
     if okl:
-        A = vlib.audit('Rivia.Props.C02')
+        A = vlib.audit('Rivia.Props.C02,Rivia.Props.C02M')
         if not A['ok']:
             proof_broken += A['problems']
     else:
@@ -331,7 +332,7 @@ def run(tier, seed, replay):
         proof_broken.append('lake build Rivia.Props.C02 failed: ' + logl[-1000:])
     lc = None
     if okl and tier == 'thorough':
-        okc, logc, dtc = vlib.leanchecker('Rivia.Props.C02')
+        okc, logc, dtc = vlib.leanchecker('Rivia.Props.C02,Rivia.Props.C02M')
         lc = dict(ok=okc, seconds=round(dtc, 1), scope=logc[:80])
         if not okc:
             proof_broken.append('leanchecker rejects Rivia.Props.C02: ' + logc[-500:])
